@@ -679,6 +679,147 @@ class Flow:
         return isinstance(v, Elem) and self.entry_read(v, field) is not None
 
 
+def nonempty_test_subject(t):
+    """the container X of a loop test that means "X is not empty": `X`, `len(X)`, `len(X) > 0`, `len(X) != 0`,
+    `len(X) >= 1`, `0 < len(X)`, `X != {}` / `X != []`; else None"""
+    if isinstance(t, ast.Compare) and len(t.ops) == 1:
+        l, op, r = t.left, t.ops[0], t.comparators[0]
+        if isinstance(l, ast.Constant) and isinstance(op, (ast.Lt, ast.LtE, ast.NotEq)):
+            l, r, op = r, l, {ast.Lt: ast.Gt, ast.LtE: ast.GtE, ast.NotEq: ast.NotEq}[type(op)]()
+        if isinstance(l, ast.Call) and chain(l.func) == "len" and len(l.args) == 1 and isinstance(r, ast.Constant) and type(r.value) is int:
+            if (isinstance(op, (ast.Gt, ast.NotEq)) and r.value == 0) or (isinstance(op, ast.GtE) and r.value == 1):
+                return l.args[0]
+            return None
+        if isinstance(op, ast.NotEq) and ((isinstance(r, ast.Dict) and not r.keys) or (isinstance(r, (ast.List, ast.Tuple)) and not r.elts)):
+            return l
+        return None
+    if isinstance(t, ast.Call) and chain(t.func) in ("len", "bool") and len(t.args) == 1 and not t.keywords:
+        return t.args[0]
+    if isinstance(t, (ast.Name, ast.Attribute)):
+        return t
+    return None
+
+
+class Drain:
+    """what `draining_generator` found: every element the generator yields is component `path` of the (kind =
+    'value' | 'item') of an entry it has just taken out of the table"""
+
+    def __init__(self, kind, path, gfi, loop):
+        self.kind, self.path, self.gfi, self.loop = kind, path, gfi, loop
+
+
+def draining_generator(flow, call, field, at):
+    """Is `call` (evaluated at node `at` of flow's function) the activation of a generator that *drains* the dict
+    held in `field`: it yields (a component of) entries it removes from the dict, one per round, and ends only
+    when the dict is empty?  -> Drain or None.
+
+    `for e in g(F): use(e)` with such a g is the same fact as `while F: e = <removing read of F>; use(e)`:
+      * g's table is F: a parameter bound to an argument that denotes F at the call (never re-bound in g), or F itself
+        when g is a method called on self;
+      * every `yield` sits directly in one `while <table is not empty>` loop and yields a value whose origins are all
+        removing reads of the table (`pop(k[, d])`, `popitem()`), with the same component;
+      * the generator's normal end is reachable only through that loop's exhausted test (no return / break), every
+        round passes a yield, every entry taken out is yielded (a removal that can reach the loop head without a
+        yield would lose a stopper), and nothing else writes the table;
+      * the key of a keyed removal is computed in the round that uses it (no yield -- i.e. no run of the consumer,
+        which removes entries itself -- between computing the key and removing the entry).
+    Between two rounds the generator holds no iterator over the table (the yields are not inside a `for`), so the
+    consumer may modify the table while the generator is suspended.  No function or parameter name enters."""
+    prog = flow.prog
+    if not isinstance(call, ast.Call) or any(isinstance(a, ast.Starred) for a in call.args) or any(k.arg is None for k in call.keywords):
+        return None
+    m, recv = flow._callee(call)
+    if m is None or not isinstance(m.node, ast.FunctionDef) or m.node is flow.fnode:
+        return None
+    fn = m.node
+    ys = [n for n in walk_no_nested(fn) if isinstance(n, (ast.Yield, ast.YieldFrom))]
+    if not ys or any(isinstance(y, ast.YieldFrom) or y.value is None for y in ys):
+        return None
+    a = fn.args
+    if a.vararg or a.kwarg:
+        return None
+    names = [x.arg for x in a.posonlyargs + a.args]
+    static = any(chain(d) in ("staticmethod",) for d in fn.decorator_list)
+    tables = set()
+    if m.cls is not None and not static:
+        if recv is None or not names:
+            return None
+        if isinstance(recv, ast.Name) and recv.id == "self" and names[0] == "self" and field.startswith("self.") and not writes_to_name(fn, "self"):
+            tables.add(field)
+        names = names[1:]
+    if len(call.args) > len(names):
+        return None
+    mapping = dict(zip(names, call.args))
+    for k in call.keywords:
+        mapping[k.arg] = k.value
+    for pname, arg in mapping.items():
+        if flow.denotes_field(arg, field, at) and not writes_to_name(fn, pname):
+            tables.add(pname)
+    if len(tables) != 1:
+        return None
+    T = tables.pop()
+    gflow = Flow(prog, m)
+    gcfg = gflow.cfg
+    loops, comps, ynodes, yielded, sites = [], set(), set(), set(), {}
+    for y in ys:
+        ids = gflow.rn(y)
+        if not ids:
+            continue
+        child, p_, lp = y, gcfg.parent.get(id(y)), None
+        while p_ is not None and not isinstance(p_, (ast.FunctionDef, ast.AsyncFunctionDef, ast.Lambda)):
+            if isinstance(p_, (ast.While, ast.For, ast.AsyncFor)) and any(child is s_ for s_ in p_.body):
+                lp = p_
+                break
+            child, p_ = p_, gcfg.parent.get(id(p_))
+        if not isinstance(lp, ast.While):
+            return None
+        if not any(lp is l for l in loops):
+            loops.append(lp)
+        o = gflow.origins(y.value, ids[0])
+        if not o:
+            return None
+        for v, pth in o:
+            if not isinstance(v, ast.AST):
+                return None
+            sv = gflow.site(v, ids[0])
+            er = gflow.entry_read(v, T, sv)
+            if er is None or not er[2] or er[0] not in ("value", "item"):
+                return None
+            comps.add((er[0], pth))
+            yielded.add(id(v))
+            sites.setdefault(sv, set()).update(ids)
+            if er[1] is not None:
+                kv, kp = gflow.one(er[1], sv)
+                ks = gflow.site(kv, None) if isinstance(kv, ast.AST) else None
+                if kp != () or ks is None or not any(n is kv for n in ast.walk(lp)):
+                    return None
+                if ks != sv and any(i in gcfg.reach({ks}, avoid={sv}) for y2 in ys for i in gflow.rn(y2)):
+                    return None
+        ynodes.update(ids)
+    if len(loops) != 1 or len(comps) != 1:
+        return None
+    lp = loops[0]
+    heads = gflow.rn(lp)
+    subj = nonempty_test_subject(lp.test)
+    if not heads or subj is None or not gflow.denotes_field(subj, T, heads[0]):
+        return None
+    tn = [n.id for n in gcfg.nodes if n.kind == "T" and n.stmt is lp and gcfg.is_reachable(n.id)]
+    fnn = [n.id for n in gcfg.nodes if n.kind == "F" and n.stmt is lp and gcfg.is_reachable(n.id)]
+    if not tn or not fnn or lp.orelse:
+        return None
+    if not gcfg.must_pass(gcfg.entry, set(fnn)):
+        return None
+    if not all(gcfg.must_pass(t_, ynodes, to=heads[0]) for t_ in tn):
+        return None
+    for sv, yn in sites.items():
+        if sv not in yn and not all(gcfg.must_pass(d, yn, to=heads[0]) for d, lab in gcfg.succ[sv] if lab != "exc"):
+            return None
+    if any(id(n) not in yielded for k, n in stores_to(fn, T, nested=False)):
+        return None
+    kind, pth = next(iter(comps))
+    return Drain(kind, pth, m, lp)
+
+
 def _fi_of(prog, fnode):
     for m in prog.funcs.values():
         if m.node is fnode:
@@ -1039,6 +1180,47 @@ class Sym:
         step = kwarg(e, "step", 1) or ast.Constant(value=1)
         return start, step
 
+    @staticmethod
+    def _for_cell(nid):
+        return "_count_of_for_%d" % nid
+
+    def count_source(self, node, st):
+        """name of the cell that holds the `itertools.count` iterator a `for` head draws from on this path: the local
+        the iterator was bound to (`it = itertools.count(1)` ... `for n in it`), or the head's own hidden cell when the
+        iterable is the count() call itself (the call is evaluated once, when the loop is entered: see `_enter`).
+        None when the loop iterates over anything else."""
+        it = node.ast.iter
+        if isinstance(node.ast, ast.AsyncFor):
+            return None
+        while isinstance(it, ast.Call) and chain(it.func) == "iter" and len(it.args) == 1 and not it.keywords:
+            it = it.args[0]  # iter(x) of an iterator is the iterator
+        if isinstance(it, ast.Name) and isinstance(st.cells.get(it.id), tuple):
+            return it.id
+        if self._count_call(it) is not None and isinstance(st.cells.get(self._for_cell(node.id)), tuple):
+            return self._for_cell(node.id)
+        return None
+
+    def _enter(self, d, label, st):
+        """effect of taking the CFG edge (label) into node d: a `for` head that is entered from outside the loop
+        evaluates its iterable; when that is an `itertools.count(start[, step])` call, the head gets a fresh
+        iterator cell (a back edge / `continue` keeps the one the loop is drawing from)."""
+        if label == "back":
+            return
+        node = self.cfg.nodes[d]
+        if node.kind != "for" or isinstance(node.ast, ast.AsyncFor):
+            return
+        it = node.ast.iter
+        while isinstance(it, ast.Call) and chain(it.func) == "iter" and len(it.args) == 1 and not it.keywords:
+            it = it.args[0]
+        cc = self._count_call(it)
+        if cc is None:
+            return
+        s0, s1 = self.poly_of(cc[0], st, advance=False), self.poly_of(cc[1], st, advance=False)
+        if s0 is not None and s1 is not None:
+            st.cells[self._for_cell(d)] = ("iter", s0, s1)
+        else:
+            st.cells.pop(self._for_cell(d), None)
+
     def _next_calls(self, root, st):
         return [c for c in walk_no_nested(root) if isinstance(c, ast.Call) and isinstance(c.func, ast.Name) and c.func.id == "next" and len(c.args) == 1
                 and isinstance(c.args[0], ast.Name) and isinstance(st.cells.get(c.args[0].id), tuple)]
@@ -1160,6 +1342,14 @@ class Sym:
             for nm in target_names(a.target):
                 st.val[nm] = self._fresh(nid, ("it", nm))
                 st.cells.pop(nm, None)
+            ck = self.count_source(node, st)
+            if ck is not None:
+                # `for n in <itertools.count iterator>`: each arrival at the head is one next() on the iterator --
+                # the same fact as `n = next(it)` at the top of a `while True` body
+                _, cur, step = st.cells[ck]
+                st.cells[ck] = ("iter", cur + step, step)
+                if isinstance(a.target, ast.Name):
+                    st.cells[a.target.id] = cur
             return
         if node.kind == "with":
             for it in a.items:
@@ -1266,6 +1456,9 @@ class Sym:
                 st.snaps[nid] = st.copy()
             st.nodes.append(nid)
             succ = [(d, l) for d, l in cfg.succ[nid] if l != "exc" or (node.kind == "raise" and follow_raise)]
+            if node.kind == "for" and self.count_source(node, st) is not None:
+                # an itertools.count iterator is never exhausted: the loop is only left from inside its body
+                succ = [(d, l) for d, l in succ if l != "F"]
             if node.kind == "test":
                 f = self.formula(node.ast, st)
                 self._exec(node, st)
@@ -1308,10 +1501,13 @@ class Sym:
                     out.append(SPath(st_, "dead", nid))
                     continue
                 if len(succ) == 1:
+                    self._enter(succ[0][0], succ[0][1], st_)
                     stack.append((succ[0][0], st_, False))
                 else:
                     for d, l in succ:
-                        stack.append((d, st_.copy(), False))
+                        s3 = st_.copy()
+                        self._enter(d, l, s3)
+                        stack.append((d, s3, False))
         return out
 
 
